@@ -257,8 +257,16 @@ def judge(mon, meta, outs):
             n0, n1 = a.get('ProjectNPV'), b.get('ProjectNPV')
             if n0 is not None and n1 is not None and math.isfinite(n0) and math.isfinite(n1):
                 ok = n1 <= n0 + 1e-9 * abs(n0) + 1e-9
-                mon.check('npv-monotone-in-cost', ok, mechanism='C18/npv-rises-with-cost-input:' + meta['name'], lower=v0, higher=v1,
-                          npv_lower=n0, npv_higher=n1, **tag)
+                mech = 'C18/npv-rises-with-cost-input:' + meta['name']
+                comp = {'Surface Plant Capital Cost Adjustment Factor': 'Cplant', 'Field Gathering System Capital Cost Adjustment Factor': 'Cgath',
+                        'Reservoir Stimulation Capital Cost Adjustment Factor': 'Cstim', 'Exploration Capital Cost Adjustment Factor': 'Cexpl',
+                        'Well Drilling and Completion Capital Cost Adjustment Factor': 'Cwell'}.get(meta['name'])
+                if not ok and comp and b.get(comp) is not None and b[comp] < 0:
+                    # recognisable signature: the component the factor multiplies is itself negative (the correlation is driven by
+                    # a negative peak heat extraction), so a larger factor is a smaller cost
+                    mech = 'C18/npv-rises-with-cost-adjustment-factor-because-the-correlated-cost-is-negative:' + comp
+                mon.check('npv-monotone-in-cost', ok, mechanism=mech, lower=v0, higher=v1,
+                          npv_lower=n0, npv_higher=n1, component=None if not comp else b.get(comp), **tag)
             eu = meta['cell'][1]
             energies = {'LCOE': 'NetkWhProduced', 'LCOH': 'HeatkWhProduced', 'LCOC': 'cooling_kWh_Produced'}
             for name, ek in energies.items():
